@@ -7,6 +7,8 @@ import AriadneModel.Spec.Pyd
 import AriadneModel.Spec.Exec
 import AriadneModel.Spec.Validate
 import AriadneModel.Proofs.C01PlainDefs
+import AriadneModel.Proofs.C01Regions
+import AriadneModel.Proofs.C01RegionsUnp
 
 open Lean (Json)
 open Ariadne Ariadne.Gql Ariadne.ResultTypes
@@ -125,6 +127,16 @@ def handle (j : Json) : Except String Json := do
       match o.name, Validate.rootOf env.schema o with
       | some n, some rt => Json.bool (C01Plain.PlainOK env (ResultTypes.pascal n) rt o.sid o.sel {})
       | _, _ => Json.bool false).toArray)
+  | "regions" =>
+    -- which of the decidable regions of the PROVED pipeline theorems of Properties/C01.lean the whole input lies in
+    -- (C01_partial_plain / _abstract / _mixin / _mixabs), and whether the Lean validity hypothesis holds
+    let env ← decEnv j
+    let ops ← decOps j
+    let inp : Triggers01.Input := { env := env, ops := ops }
+    pure (Json.mkObj [("plain", Json.bool (decide (C01.PlainInput inp))), ("abstract", Json.bool (decide (C01.AbsInput inp))),
+      ("mixin", Json.bool (decide (C01.MixInput inp))), ("mixabs", Json.bool (decide (C01.MixAbsInput inp))),
+      ("unpacked", Json.bool (decide (C01.UnpInput inp))),
+      ("valid", Json.bool (decide (C01.ValidInput inp)))])
   | "validDoc" =>
     let env ← decEnv j
     let ops ← decOps j
